@@ -45,8 +45,13 @@ type errAnalysis struct {
 }
 
 func newErrAnalysis(c *Ctx, l *Loaded) *errAnalysis {
+	return newErrAnalysisWith(c, l, storageOpsPred())
+}
+
+// newErrAnalysisWith: ERR rules with a caller-supplied notion of "storage operation".
+func newErrAnalysisWith(c *Ctx, l *Loaded, ops CallPred) *errAnalysis {
 	ea := &errAnalysis{c: c, l: l, lossy: map[*ssa.Function]string{}}
-	ea.storage = l.newReach(storageOpsPred())
+	ea.storage = l.newReach(ops)
 	ea.isLogger = func(cc *ssa.CallCommon) bool {
 		if cc.IsInvoke() {
 			if n := derefNamed(cc.Value.Type()); n != nil && n.Obj().Name() == "Logger" {
@@ -416,6 +421,27 @@ func (ea *errAnalysis) runE1E2E4(ruleDrop, ruleSwallow, ruleLossy string, only f
 		if u.stored || u.sent || u.panicked || u.passed && !u.logged {
 			continue
 		}
+		// "log and terminate": the err != nil edge ends in os.Exit / log.Fatal
+		exits := false
+		for _, iff := range u.checked {
+			if iff == nil {
+				continue
+			}
+			if _, nn, ok := nilCond(iff.Cond); ok {
+				searchFrom([]point{blockStart(iff.Block().Succs[nn])}, func(in ssa.Instruction) bool {
+					if cc := callCommon(in); cc != nil {
+						if f := staticCallee(cc); f != nil && (f.String() == "os.Exit" || strings.HasPrefix(f.String(), "log.Fatal")) {
+							exits = true
+							return true
+						}
+					}
+					return false
+				})
+			}
+		}
+		if exits {
+			continue
+		}
 		ea.lossy[s.fn] = "error of " + l.calleeName(s.call) + " is only tested, not surfaced"
 	}
 	// close upward through functions without an error result
@@ -512,7 +538,7 @@ func (ea *errAnalysis) runE1E2E4(ruleDrop, ruleSwallow, ruleLossy string, only f
 			name = f.Name()
 		}
 		key := l.fname(d.fn) + " ← defer/go " + l.calleeName(d.in)
-		if name == "Close" {
+		if name == "Close" || name == "Reset" && strings.Contains(l.calleeName(d.in), "sqlite3") {
 			// enumerated idiom: deferred Close of an iterator/batch; step and
 			// write failures are surfaced by Error()/Write(), Close is a release
 			c.ok(ruleDrop, key, l.ipos(d.in), "deferred Close(): release operation, not a storage read/write in the property's fault model")
